@@ -7,7 +7,8 @@ import CE.Cbe.Reencode
   array of a whole-byte element kind (strings, resource ids, remote references, u8 .. u64, i8 .. i64, f16 .. f64, uid) sent
   as `arrayBegin`, then any number of chunks (`arrayChunk n more`), the data of each chunk in any
   number of `arrayData` pieces; or a media object (`mediaBegin` with its media type) or custom binary
-  data (`customBegin` with its type number) followed by chunks in the same way.  This is where the encoder's array state lives (`trySmall`: the first
+  data (`customBegin` with its type number) followed by chunks in the same way; or the one-event forms of
+  a media object, custom binary data and a remote reference (the same bytes as begin + one chunk).  This is where the encoder's array state lives (`trySmall`: the first
   chunk decides between the short header and header + chunk length; `arrayType`), and where the
   decoder's chunk loop runs more than once.
 
@@ -307,18 +308,33 @@ inductive Item
   | arr (t : ArrT) (cs : List Chunk) (last : Chunk)
   | media (mt : Bytes) (cs : List Chunk) (last : Chunk)
   | custom (ty : Nat) (cs : List Chunk) (last : Chunk)
+  | mediaWhole (mt d : Bytes)          -- the one-event forms: same bytes as begin + one chunk
+  | customWhole (ty : Nat) (d : Bytes)
+  | rrefWhole (s : Bytes)
 
 def Item.events : Item → List Ev
   | .ev e => [e]
   | .arr t cs last => Ev.arrayBegin t :: chunksEvs cs last
   | .media mt cs last => Ev.mediaBegin mt :: chunksEvs cs last
   | .custom ty cs last => Ev.customBegin .customBinary ty :: chunksEvs cs last
+  | .mediaWhole mt d => [Ev.media mt d]
+  | .customWhole ty d => [Ev.customBinary ty d]
+  | .rrefWhole s => [Ev.stringlike .remoteRef s]
+
+/-- the single chunk a one-event form stands for -/
+def oneChunk (d : Bytes) : Chunk := ⟨d.length, [d]⟩
+
+theorem oneChunk_ok (d : Bytes) (h : d.length < 2 ^ 56) : chunkOK 1 (oneChunk d) := by
+  simp [chunkOK, oneChunk, Chunk.data, h]
 
 def Item.ok : Item → Prop
   | .ev e => simple e = true
   | .arr t cs last => frag t = true ∧ (∀ c ∈ cs, chunkOK (t.elemBits / 8) c) ∧ chunkOK (t.elemBits / 8) last
   | .media mt cs last => mt.length ≤ maxMediaTypeLength ∧ (∀ c ∈ cs, chunkOK 1 c) ∧ chunkOK 1 last
   | .custom ty cs last => ty ≤ maxCustomType ∧ (∀ c ∈ cs, chunkOK 1 c) ∧ chunkOK 1 last
+  | .mediaWhole mt d => mt.length ≤ maxMediaTypeLength ∧ d.length < 2 ^ 56
+  | .customWhole ty d => ty ≤ maxCustomType ∧ d.length < 2 ^ 56
+  | .rrefWhole s => s.length < 2 ^ 56
 
 /-- what the decoder delivers for the item's bytes -/
 def Item.back : Item → List Ev
@@ -326,6 +342,9 @@ def Item.back : Item → List Ev
   | .arr t cs last => groupBack t cs last
   | .media mt cs last => Ev.mediaBegin mt :: chunksBack cs last
   | .custom ty cs last => Ev.customBegin .customBinary ty :: chunksBack cs last
+  | .mediaWhole mt d => Ev.mediaBegin mt :: chunksBack [] (oneChunk d)
+  | .customWhole ty d => Ev.customBegin .customBinary ty :: chunksBack [] (oneChunk d)
+  | .rrefWhole s => groupBack .remoteRef [] (oneChunk s)
 
 /-- media: the header carries the media type; the data always comes in chunk form -/
 theorem enc_media (st : EncSt) (mt : Bytes) (cs : List Chunk) (last : Chunk) (tail : List Ev) :
@@ -380,6 +399,32 @@ theorem decodeOne_custom (ty : Nat) (hty : ty ≤ maxCustomType) (cs : List Chun
     simp [this]
   simp only [decodeTok, decodeCustom, hu]
   rw [decodeChunks8 cs last hcs hl rest]
+
+theorem enc_mediaWhole (st : EncSt) (mt d : Bytes) (tail : List Ev) :
+    encodeFrom st (Ev.media mt d :: tail) =
+      (encMediaBegin mt ++ chunksBytes [] (oneChunk d) ++ (encodeFrom { arrayType := .media } tail).1,
+       (encodeFrom { arrayType := .media } tail).2.1, (encodeFrom { arrayType := .media } tail).2.2) := by
+  simp only [encodeFrom, encodeEv, chunksBytes, oneChunk, Chunk.data, List.flatten_cons, List.flatten_nil,
+    List.append_nil, List.append_assoc]
+
+theorem enc_customWhole (st : EncSt) (ty : Nat) (d : Bytes) (tail : List Ev) :
+    encodeFrom st (Ev.customBinary ty d :: tail) =
+      (u8 tCustom :: uleb ty ++ chunksBytes [] (oneChunk d) ++ (encodeFrom st tail).1,
+       (encodeFrom st tail).2.1, (encodeFrom st tail).2.2) := by
+  simp only [encodeFrom, encodeEv, chunksBytes, oneChunk, Chunk.data, List.flatten_cons, List.flatten_nil,
+    List.append_nil, List.append_assoc, List.cons_append]
+
+theorem rref_header : arrayHeader .remoteRef = .ok [u8 tPlane7f, u8 pRemoteRef] := by
+  simp [arrayHeader, arrayCode, pRemoteRef]
+
+theorem enc_rrefWhole (st : EncSt) (s : Bytes) (tail : List Ev) :
+    encodeFrom st (Ev.stringlike .remoteRef s :: tail) =
+      (groupBytes .remoteRef [u8 tPlane7f, u8 pRemoteRef] [] (oneChunk s) ++ (encodeFrom st tail).1,
+       (encodeFrom st tail).2.1, (encodeFrom st tail).2.2) := by
+  have hsm : ∀ n, smallHeader .remoteRef n = none := by
+    intro n; simp [smallHeader, shortCode]
+  simp only [encodeFrom, encodeEv, encArrayWhole, hsm, rref_header, bind, Except.bind, pure, Except.pure, groupBytes,
+    oneChunk, chunksBytes, Chunk.data, List.flatten_cons, List.flatten_nil, List.append_nil, List.append_assoc]
 
 theorem decodeLoop_cons (bs R : Bytes) (evs : List Ev) (hne : bs ≠ []) (hdec : decodeOne (bs ++ R) = .ok (evs, R))
     (fuel : Nat) (hf : (bs ++ R).length ≤ fuel) (tailEvs : List Ev)
@@ -468,6 +513,47 @@ theorem items_roundtrip : ∀ (items : List Item) (st : EncSt), (∀ i ∈ items
     have := decodeLoop_cons _ _ _ hne hdec fuel hfuel _ ih3
     simpa [List.append_assoc] using this
 
+  | .mediaWhole mt d :: rest, st, h => by
+    obtain ⟨hmt, hd⟩ : (Item.mediaWhole mt d).ok := h _ (by simp)
+    obtain ⟨ih1, ih2, ih3⟩ := items_roundtrip rest { arrayType := .media } (fun i hi => h i (by simp [hi]))
+    have hev : (Item.mediaWhole mt d :: rest).flatMap Item.events = Ev.media mt d :: rest.flatMap Item.events := by
+      simp [Item.events]
+    rw [hev, enc_mediaWhole]
+    refine ⟨ih1, fun _ => ih2 rfl, ?_⟩
+    intro fuel hfuel
+    have hdec := decodeOne_media mt hmt [] (oneChunk d) (by simp) (oneChunk_ok d hd)
+      (encodeFrom { arrayType := .media } (rest.flatMap Item.events)).1
+    have hne : encMediaBegin mt ++ chunksBytes [] (oneChunk d) ≠ [] := by simp [encMediaBegin]
+    simp only [List.flatMap_cons, Item.back, List.append_assoc, List.cons_append]
+    have := decodeLoop_cons _ _ _ hne hdec fuel hfuel _ ih3
+    simpa [List.append_assoc] using this
+  | .customWhole ty d :: rest, st, h => by
+    obtain ⟨hty, hd⟩ : (Item.customWhole ty d).ok := h _ (by simp)
+    obtain ⟨ih1, ih2, ih3⟩ := items_roundtrip rest st (fun i hi => h i (by simp [hi]))
+    have hev : (Item.customWhole ty d :: rest).flatMap Item.events = Ev.customBinary ty d :: rest.flatMap Item.events := by
+      simp [Item.events]
+    rw [hev, enc_customWhole]
+    refine ⟨ih1, ih2, ?_⟩
+    intro fuel hfuel
+    have hdec := decodeOne_custom ty hty [] (oneChunk d) (by simp) (oneChunk_ok d hd)
+      (encodeFrom st (rest.flatMap Item.events)).1
+    have hne : u8 tCustom :: uleb ty ++ chunksBytes [] (oneChunk d) ≠ [] := by simp
+    simp only [List.flatMap_cons, Item.back, List.append_assoc, List.cons_append]
+    have := decodeLoop_cons _ _ _ hne hdec fuel hfuel _ ih3
+    simpa [List.append_assoc] using this
+  | .rrefWhole s :: rest, st, h => by
+    have hs : (Item.rrefWhole s).ok := h _ (by simp)
+    obtain ⟨ih1, ih2, ih3⟩ := items_roundtrip rest st (fun i hi => h i (by simp [hi]))
+    have hev : (Item.rrefWhole s :: rest).flatMap Item.events = Ev.stringlike .remoteRef s :: rest.flatMap Item.events := by
+      simp [Item.events]
+    rw [hev, enc_rrefWhole]
+    refine ⟨ih1, ih2, ?_⟩
+    intro fuel hfuel
+    obtain ⟨hne, hdec⟩ := decodeOne_group .remoteRef rfl _ rref_header [] (oneChunk s) (by simp)
+      (by simpa [ArrT.elemBits] using oneChunk_ok s hs) (encodeFrom st (rest.flatMap Item.events)).1
+    simp only [List.flatMap_cons, Item.back, List.append_assoc]
+    exact decodeLoop_cons _ _ _ hne hdec fuel hfuel _ ih3
+
 /-! ### same data -/
 
 theorem gather_pieces (ps : List Bytes) (xs : List Ev) (c0 : List Nat) (d0 : Bytes) :
@@ -555,6 +641,9 @@ theorem clean_events : ∀ (items : List Item), (∀ i ∈ items, i.ok) → clea
   | .arr t cs last :: rest, _ => rfl
   | .media mt cs last :: rest, _ => rfl
   | .custom ty cs last :: rest, _ => rfl
+  | .mediaWhole mt d :: rest, _ => rfl
+  | .customWhole ty d :: rest, _ => rfl
+  | .rrefWhole s :: rest, _ => rfl
 
 theorem clean_back : ∀ (items : List Item), (∀ i ∈ items, i.ok) → clean (items.flatMap Item.back ++ [Ev.endDoc]) = true
   | [], _ => rfl
@@ -570,6 +659,40 @@ theorem clean_back : ∀ (items : List Item), (∀ i ∈ items, i.ok) → clean 
     exact clean_groupBack t cs last _
   | .media mt cs last :: rest, _ => rfl
   | .custom ty cs last :: rest, _ => rfl
+  | .mediaWhole mt d :: rest, _ => rfl
+  | .customWhole ty d :: rest, _ => rfl
+  | .rrefWhole s :: rest, _ => by
+    simp only [List.flatMap_cons, Item.back, List.append_assoc]
+    exact clean_groupBack _ _ _ _
+
+theorem chunkData_one (d : Bytes) : chunkData [] (oneChunk d) = d := by
+  simp [chunkData, oneChunk, Chunk.data]
+
+/-- the one-event forms carry the same data as what the decoder delivers for them -/
+theorem canon_mediaWhole (mt d : Bytes) (hd : d.length < 2 ^ 56) (xs ys : List Ev) (hclx : clean xs = true)
+    (hxy : canon false xs = canon false ys) :
+    canon false (Ev.mediaBegin mt :: (chunksBack [] (oneChunk d) ++ xs)) = canon false (Ev.media mt d :: ys) := by
+  rw [canon, canon]
+  simp only [gather_chunksBack 1 xs hclx [] (oneChunk d) [] [] (by simp) (oneChunk_ok d hd), chunkData_one, hxy,
+    List.nil_append]
+
+theorem canon_customWhole (ty : Nat) (d : Bytes) (hd : d.length < 2 ^ 56) (xs ys : List Ev) (hclx : clean xs = true)
+    (hxy : canon false xs = canon false ys) :
+    canon false (Ev.customBegin .customBinary ty :: (chunksBack [] (oneChunk d) ++ xs)) =
+      canon false (Ev.customBinary ty d :: ys) := by
+  rw [canon, canon]
+  simp only [gather_chunksBack 1 xs hclx [] (oneChunk d) [] [] (by simp) (oneChunk_ok d hd), chunkData_one, hxy,
+    List.nil_append]
+  rfl
+
+theorem canon_rrefWhole (s : Bytes) (hs : s.length < 2 ^ 56) (xs ys : List Ev) (hclx : clean xs = true)
+    (hxy : canon false xs = canon false ys) :
+    canon false (groupBack .remoteRef [] (oneChunk s) ++ xs) = canon false (Ev.stringlike .remoteRef s :: ys) := by
+  have hgb : groupBack .remoteRef [] (oneChunk s) = Ev.arrayBegin .remoteRef :: chunksBack [] (oneChunk s) := by
+    simp [groupBack, smallHeader, shortCode]
+  rw [hgb, List.cons_append, canon, canon]
+  simp only [gather_chunksBack 1 xs hclx [] (oneChunk s) [] [] (by simp) (oneChunk_ok s hs), chunkData_one, hxy,
+    List.nil_append, canonArr]
 
 /-- media and custom data: the begin event, then the chunks -/
 theorem canon_media (mt : Bytes) (cs : List Chunk) (last : Chunk) (hcs : ∀ c ∈ cs, chunkOK 1 c) (hl : chunkOK 1 last)
@@ -612,6 +735,24 @@ theorem items_canon : ∀ (items : List Item), (∀ i ∈ items, i.ok) →
     have ih := items_canon rest hrest
     simp only [List.flatMap_cons, Item.back, Item.events, List.append_assoc, List.cons_append]
     exact canon_custom ty cs last hcs hl _ _ (clean_back rest hrest) (clean_events rest hrest) ih
+  | .mediaWhole mt d :: rest, h => by
+    have hrest : ∀ i ∈ rest, i.ok := fun i hi => h i (by simp [hi])
+    obtain ⟨_, hd⟩ : (Item.mediaWhole mt d).ok := h _ (by simp)
+    have ih := items_canon rest hrest
+    simp only [List.flatMap_cons, Item.back, Item.events, List.append_assoc, List.cons_append, List.singleton_append]
+    exact canon_mediaWhole mt d hd _ _ (clean_back rest hrest) ih
+  | .customWhole ty d :: rest, h => by
+    have hrest : ∀ i ∈ rest, i.ok := fun i hi => h i (by simp [hi])
+    obtain ⟨_, hd⟩ : (Item.customWhole ty d).ok := h _ (by simp)
+    have ih := items_canon rest hrest
+    simp only [List.flatMap_cons, Item.back, Item.events, List.append_assoc, List.cons_append, List.singleton_append]
+    exact canon_customWhole ty d hd _ _ (clean_back rest hrest) ih
+  | .rrefWhole s :: rest, h => by
+    have hrest : ∀ i ∈ rest, i.ok := fun i hi => h i (by simp [hi])
+    have hs : (Item.rrefWhole s).ok := h _ (by simp)
+    have ih := items_canon rest hrest
+    simp only [List.flatMap_cons, Item.back, Item.events, List.append_assoc, List.singleton_append]
+    exact canon_rrefWhole s hs _ _ (clean_back rest hrest) ih
 
 /-- the bytes of a whole document of items -/
 theorem items_encode_doc (items : List Item) (h : ∀ i ∈ items, i.ok) :
@@ -777,6 +918,38 @@ theorem items_reencode : ∀ (items : List Item) (st1 st2 : EncSt), (∀ i ∈ i
     simp only [List.flatMap_cons, Item.back, Item.events, List.cons_append]
     rw [hR, chunksBack_norm, hL, chunksBytes_norm 1 cs last hcs hl]
     exact ⟨by rw [i1], i2, i3⟩
+  | .mediaWhole mt d :: rest, st1, st2, h, h1, h2 => by
+    have hrest : ∀ i ∈ rest, i.ok := fun i hi => h i (by simp [hi])
+    obtain ⟨_, hd⟩ : (Item.mediaWhole mt d).ok := h _ (by simp)
+    have hL := enc_media st1 mt ([].map Chunk.norm) (oneChunk d).norm (rest.flatMap Item.back)
+    obtain ⟨i1, i2, i3⟩ := items_reencode rest { arrayType := .media } { arrayType := .media } hrest rfl rfl
+    simp only [List.flatMap_cons, Item.back, Item.events, List.cons_append, List.singleton_append]
+    rw [enc_mediaWhole, chunksBack_norm, hL, chunksBytes_norm 1 [] (oneChunk d) (by simp) (oneChunk_ok d hd)]
+    exact ⟨by simp [i1], i2, i3⟩
+  | .customWhole ty d :: rest, st1, st2, h, h1, h2 => by
+    have hrest : ∀ i ∈ rest, i.ok := fun i hi => h i (by simp [hi])
+    obtain ⟨_, hd⟩ : (Item.customWhole ty d).ok := h _ (by simp)
+    have hL := enc_custom st1 ty ([].map Chunk.norm) (oneChunk d).norm (rest.flatMap Item.back)
+    obtain ⟨i1, i2, i3⟩ := items_reencode rest { arrayType := .customBinary } st2 hrest rfl h2
+    simp only [List.flatMap_cons, Item.back, Item.events, List.cons_append, List.singleton_append]
+    rw [enc_customWhole, chunksBack_norm, hL, chunksBytes_norm 1 [] (oneChunk d) (by simp) (oneChunk_ok d hd)]
+    exact ⟨by simp [i1], i2, i3⟩
+  | .rrefWhole s :: rest, st1, st2, h, h1, h2 => by
+    have hrest : ∀ i ∈ rest, i.ok := fun i hi => h i (by simp [hi])
+    have hs : (Item.rrefWhole s).ok := h _ (by simp)
+    have hgb : groupBack .remoteRef [] (oneChunk s) = Ev.arrayBegin .remoteRef :: chunksBack [] (oneChunk s) := by
+      simp [groupBack, smallHeader, shortCode]
+    have hbytes : ∀ c : Chunk, groupBytes .remoteRef [u8 tPlane7f, u8 pRemoteRef] [] c =
+        [u8 tPlane7f, u8 pRemoteRef] ++ chunksBytes [] c := by
+      intro c; simp [groupBytes, smallHeader, shortCode]
+    have hL := enc_group st1 .remoteRef _ rref_header ([].map Chunk.norm) (oneChunk s).norm (rest.flatMap Item.back)
+    obtain ⟨i1, i2, i3⟩ := items_reencode rest { arrayType := .remoteRef } st2 hrest rfl h2
+    simp only [List.flatMap_cons, Item.back, Item.events, List.singleton_append]
+    rw [enc_rrefWhole, hgb, chunksBack_norm, List.cons_append, hL]
+    have hn := chunksBytes_norm 1 [] (oneChunk s) (by simp) (oneChunk_ok s hs)
+    simp only [List.map_nil] at hn
+    simp only [List.map_nil, hbytes, hn]
+    exact ⟨by simp [i1], i2, i3⟩
 
 /-- decoding the encoder's bytes and encoding what was delivered gives the same bytes again -/
 theorem items_canonical_fixed_point (items : List Item) (h : ∀ i ∈ items, i.ok) :
